@@ -322,9 +322,10 @@ class ThreadedClientDriver(NetBase):
 class AsyncClientDriver(NetBase):
     kind = 'asyncio'
 
-    def __init__(self, request_timeout=40, **kw):
+    def __init__(self, request_timeout=40, own_session=False, **kw):
         import engineio, aiohttp
         self._init()
+        self._real_cs = None
         self.lp = rt.VLoop()
         self.lp.set_exception_handler(lambda loop, context: None)     # handlers that raise are part of the histories
         self.lp.vnow = 0.0
@@ -387,6 +388,8 @@ class AsyncClientDriver(NetBase):
             cookie_jar = Jar()
 
             async def _req(self, method, url, headers=None, data=None, timeout=None, **kw):
+                if self.closed:
+                    raise RuntimeError('Session is closed')
                 hid = next(drv._hid)
                 p = Pending(hid, method, url, data, None)
                 p.fut = lp.create_future()
@@ -408,6 +411,8 @@ class AsyncClientDriver(NetBase):
                 return await self._req('POST', url, **kw)
 
             async def ws_connect(self, url, **opts):
+                if self.closed:
+                    raise RuntimeError('Session is closed')
                 cid = next(drv._cid)
                 q = urllib.parse.parse_qs(urllib.parse.urlparse(url).query)
                 drv.trace.append(('wsconnect', cid, 'sid' in q))
@@ -427,10 +432,17 @@ class AsyncClientDriver(NetBase):
                 return ws
 
             async def close(self):
-                pass
+                self.closed = True
 
         self.Resp, self.Msg, self.aiohttp = Resp, Msg, aiohttp
-        self.c = engineio.AsyncClient(http_session=Session(), request_timeout=request_timeout / CTICK, handle_sigint=False, **kw)
+        if own_session:
+            # the client makes (and closes, and makes again) its own aiohttp session: the class it instantiates is ours
+            import engineio.async_client as _ac
+            self._real_cs = _ac.aiohttp.ClientSession
+            _ac.aiohttp.ClientSession = Session
+            self.c = engineio.AsyncClient(request_timeout=request_timeout / CTICK, handle_sigint=False, **kw)
+        else:
+            self.c = engineio.AsyncClient(http_session=Session(), request_timeout=request_timeout / CTICK, handle_sigint=False, **kw)
         self.c.logger.setLevel(100)
 
         async def a_disc():
@@ -546,7 +558,12 @@ class AsyncClientDriver(NetBase):
 
     def close(self):
         try:
-            self.c.http.closed = True      # keeps AsyncClient.__del__ quiet
+            if self._real_cs is not None:
+                import engineio.async_client as _ac
+                _ac.aiohttp.ClientSession = self._real_cs
+                self._real_cs = None
+            if self.c.http is not None:
+                self.c.http.closed = True      # keeps AsyncClient.__del__ quiet
         except Exception:
             pass
         try:
